@@ -58,6 +58,54 @@ theorem registered_iff_waiting (hS : ops.Stable) (hv : v = 1 ∨ v = 2) {g : GSy
         obtain ⟨rfl, rfl⟩ := hm
         exact ⟨hr, by simp [GSys.waitable, hst, hw], ht2, ht1⟩
 
+/-- **The `registered` flag mirrors the executor's map (v2 ABI).**  In every reachable state of a live
+operation: the map of task `tp` holds an entry for waitable `x` of this operation **iff** the
+operation's stored task reference is `tp` with `registered = Some(x)` and no delivered code is waiting
+to be consumed.  (While a delivered code is unconsumed the executor has already taken the entry out
+and the flag is stale until `poll_complete_with_code` clears it — the "event already popped for
+delivery" case.)  The flag is what `CabiTask::drop` consults when the operation moves to another task
+or is freed, so this is exactly what makes the move/free unregister from the right task: a model in
+which re-registration with the same task does not set the flag again (seeded mutant C18c) violates it
+after `deliver; poll`. -/
+theorem registered_flag_iff_in_map (hS : ops.Stable) (hv2 : v = 2) {g : GSys S P}
+    (h : GReach ops dropC v t0 s0 g) (hg : g.gone = false) (tp x : Nat) :
+    (tp, x) ∈ g.regs ↔ (g.w.task = some ⟨tp, some x⟩ ∧ g.w.code = none ∧ ∃ p, g.w.state = .inProgress p) := by
+  have hI := reach_regInv ops hS dropC v t0 (.inr hv2) s0 h
+  unfold RegInv at hI
+  simp only [hg, Bool.false_eq_true, if_false] at hI
+  cases hst : g.w.state with
+  | start s => rw [hst] at hI; simp [hI.1]
+  | done => rw [hst] at hI; simp [hI.1]
+  | inProgress p =>
+    rw [hst] at hI
+    obtain ⟨h1, h2, _⟩ := hI
+    cases hc : g.w.code with
+    | some c => obtain ⟨hr, _⟩ := h2 c hc; simp [hr]
+    | none =>
+      obtain ⟨y, tq, _, hr, _, ht2, _⟩ := h1 hc
+      have htask := ht2 hv2
+      rw [hr, htask]
+      constructor
+      · intro hm
+        simp only [List.mem_singleton, Prod.mk.injEq] at hm
+        obtain ⟨rfl, rfl⟩ := hm
+        exact ⟨rfl, rfl, p, rfl⟩
+      · intro ⟨he, _, _⟩
+        simp only [Option.some.injEq, CabiTask.mk.injEq] at he
+        obtain ⟨rfl, rfl⟩ := he
+        simp
+
+/-- Re-registration sets the flag every time, also with the task the operation already holds (after
+`poll_complete_with_code` cleared it for a delivered code): `register_waker` ends with
+`registered = Some(waitable)` on every path. -/
+theorem reregister_sets_flag (hv2 : v = 2) (w : WOp S P) (t x : Nat)
+    (htask : ∀ ct, w.task = some ct → ct.registered = none) :
+    ∃ w' evs, registerWaker w ⟨some ⟨t, v⟩, []⟩ x = .ok (w', ⟨some ⟨t, v⟩, [(t, x)]⟩) evs ∧
+      w'.task = some ⟨t, some x⟩ := by
+  obtain ⟨w', evs, hr, _, _, _, h2, _⟩ := register_fresh w v t x (.inr hv2)
+    ⟨fun h1 => absurd (h1.symm.trans hv2) (by decide), htask⟩
+  exact ⟨w', evs, hr, h2 hv2⟩
+
 /-- **Inv2 (removed before cancel or drop).**  When `cancel()` of a reachable in-progress operation
 reaches the point where the cancel intrinsic is called, and when its destructor has run, the
 operation is registered with no task.  (For subtasks the trace-level form — at every `subtask.cancel`
